@@ -33,7 +33,8 @@ logger = logging.getLogger(__name__)
 
 
 def _split_coord(attr: str) -> tuple[str, str]:
-    x, y = attr.split(None, 1)
+    # A mesh may list further coordinates, such as an elevation, after x and y
+    x, y = attr.split()[:2]
     return (x, y)
 
 
